@@ -346,7 +346,18 @@ class Session:
                 form = 'mc' if self.uses_draws() else 'traj'
                 lform = 'logtraj' if form == 'traj' else 'logmc'
                 betas0 = self.betas_at(0)
-                e = self.build(lform, betas0)
+                # a ridge term (parameters only, so it may sit outside the trajectory) keeps the maximum finite on these
+                # tiny samples: without it the estimates diverge and the engine overflows
+                import biogeme.expressions as ex
+                sp_ = {k_: (v_, None, None, 0) for k_, v_ in betas0.items()}
+                rb = ref.Builder(sp_, share_elementary=True)
+                core_ = self.build(lform, betas0)
+                pen_names = sorted(ref.collect(self.row_ast(), [])['beta'])
+                pen = None
+                for n_ in pen_names:
+                    t_ = ex.Beta(n_, betas0[n_], None, None, 0)
+                    pen = t_ * t_ if pen is None else pen + t_ * t_
+                e = core_ - 0.1 * pen
                 p = Parameters()
                 p.set_value('number_of_threads', T)
                 p.set_value('number_of_draws', self.cfg['R'])
@@ -354,7 +365,7 @@ class Session:
                 p.set_value('generate_html', False)
                 p.set_value('generate_pickle', False)
                 p.set_value('bootstrap_samples', 2)
-                p.set_value('max_iterations', 4)
+                p.set_value('max_iterations', 20)
                 p.set_value('optimization_algorithm', 'simple_bounds')
                 b = bio.BIOGEME(self.db, e, parameters=p)
                 b.modelName = 'pan'
@@ -363,7 +374,7 @@ class Session:
                 want = self.reference(lform, betas)
                 x = [betas[n] for n in b.free_beta_names]
                 ll = float(b.calculate_likelihood(x, scaled=False))
-                tot = sum(want.values())
+                tot = sum(want.values()) - len(want) * 0.1 * sum(betas[n_] ** 2 for n_ in pen_names)
                 if not ref.close(ll, tot, 1e-10, 1e-12):
                     ctx.fail('I09.boot', f'after estimate(run_bootstrap=True) the log likelihood of the same panel object is {ll!r}, '
                                          f'on the estimation data it is {tot!r}')
